@@ -1018,3 +1018,12 @@ func GenPool(r *rand.Rand, s *Shape, n int) []Entry {
 	}
 	return pool
 }
+
+// Size counts the nodes of a model.
+func (m *M) Size() int {
+	n := 1
+	for _, k := range m.Kids {
+		n += k.Size()
+	}
+	return n
+}
